@@ -5,12 +5,33 @@ VERIF = os.path.dirname(os.path.dirname(os.path.abspath(__file__)))
 ALL = ['C%02d' % i for i in range(1, 20)]
 
 CHECKS = {
+ 'C01': dict(level='exploration', ref='3/C01', technique='TLA+ outcome specification (Totality) judged by TLC on recorded call outcomes (trace validation); inputs enumerated/sampled by the harness',
+   text='Every call outcome (return / exception class / timeout, with the enabling facts of the three admissible refusals) is judged by TLC against Totality.tla; inputs are exhaustive over small alphabets to a length bound and sampled otherwise.',
+   note='Trusted: the per-call SIGALRM budget, the syntactic enabling facts computed in harness/c01.py, TLC. Identical outcome projections are merged before TLC judges them.'),
+ 'C02': dict(level='exploration', ref='3/C02', technique='TLA+ trace acceptor over the vendored corpus (Corpus.tla: Render(e) enabled only with the expected output; completeness invariant), TLC',
+   text='All 652 examples are rendered on every run and the trace is consumed by Corpus.tla; exhaustive over the finite corpus. The oracle is data (the vendored corpus), the specification adds equality and completeness book-keeping.',
+   note='Trusted: harness/htmlnorm.py (applied to both sides), the vendored corpus (sha256 pinned), TLC.'),
  'C04': dict(level='exploration', ref='3/C04', technique='TLA+ law (Laws!QuoteLaw, Laws!ListLaw) judged by TLC on recorded parses (trace validation)',
    text='Every recorded (base parse, embedded parse) pair is judged by TLC against the embedding laws; inputs are sampled (corpus, mutations, splices, random), so this is exploration with a TLA+ oracle, not exhaustive.',
    note='Trusted: the textual embedding functions and the token projection in harness/; TLC. Texts with whitespace-only lines are outside the list law.'),
  'C05': dict(level='exploration', ref='3/C05', technique='TLA+ law (Laws!ConcatLaw with line shift) judged by TLC on recorded parses (trace validation)',
    text='Every recorded triple (parse A, parse B, parse A+blank+B) is judged by TLC against the concatenation law including line numbers; pairs are sampled.',
    note='Trusted: token projection in harness/proj.py; side conditions are decided from the real parse of A and B alone, as the property phrases them.'),
+ 'C06': dict(level='model_checking', ref='3/C06', technique='TLA+ model of the CommonMark 0.30 delimiter algorithm (Emphasis.tla) explored exhaustively by TLC; every behaviour replayed into the real parser (spec -> code)',
+   text='TLC runs the delimiter algorithm on every string over {a,space,*,_,.} up to length 7/9 and over {a,*},{a,_} up to 12/14, checks laminarity and stack invariants on the model, and exports the expected structure; the harness compares the real HTML for each string. Random wide-alphabet strings are judged through the same model in batch.',
+   note='Trusted: the transcription of the CommonMark algorithm in Emphasis.tla (validated against the corpus through the unchanged parser and by review), the class table for wide characters, observation through an ATX heading.'),
+ 'C09': dict(level='exploration', ref='3/C09', technique='TLA+ law (Laws!RoundTripLaw) judged by TLC on recorded render/parse round trips (trace validation)',
+   text='Round-trip records (x, y=render(parse x), z, HTML and definitions of x and y) for the 652 corpus examples x normalize_whitespace are judged by TLC; failing corpus examples that the property sets aside are listed individually in known_findings.json.',
+   note='Trusted: exact string equality of HtmlRenderer output as "identical HTML"; TLC.'),
+ 'C12': dict(level='model_checking', ref='3/C12', technique='TLA+ model of the BFS walker (Traverse.tla) checked exhaustively by TLC and replayed into utils.traverse; TreeShape.tla predicates judged by TLC on dumps of real parses',
+   text='Traverse.tla is explored over all trees of <= 4/5 nodes x filters x depth limits x include_source and refines the property-tier ExpectedYields; each case is replayed on a real token tree. Shape, traversal and AST-mirror laws are judged by TLC on dumps of real parses under four token sets (sampled inputs).',
+   note='Trusted: the dump of the object graph in harness/c12.py, the child-kind table in TreeShape.tla (taken from the class docstrings), TLC.'),
+ 'C15': dict(level='exploration', ref='3/C15', technique='TLA+ model of the supply paths (Forms.tla, exhaustive small texts, replayed into the API) plus Laws!FormsLaw / Laws!CliLaw judged by TLC on recorded outputs',
+   text='Forms.tla shows all supply paths yield one line list for every text of <= 3 lines over 8 bodies; each such text and sampled corpus/fuzz texts are pushed through str/list/iterator/file/cli.convert and real python -m mistletoe subprocesses; TLC judges output equality and CLI concatenation.',
+   note='Trusted: harness/c15.py form drivers; texts with line terminators other than LF are outside the domain.'),
+ 'C18': dict(level='exploration', ref='3/C18', technique='TLA+ law (Laws!ConservativeLaw) judged by TLC on recorded outputs (trace validation)',
+   text='For sampled inputs meeting each renderer\'s side condition, the contrib renderer\'s output and HtmlRenderer\'s output (same options) are judged by TLC.',
+   note='Trusted: side conditions ("[[", "$" textual; code block from the HTML renderer\'s parse as the statement phrases it); TLC.'),
 }
 NOT_YET = 'check not built yet in this session (planned, see DESIGN.md section 3)'
 
